@@ -41,10 +41,15 @@ CLAIMED = {
         "text": "A fixed template set covering every Table construction site is analysed under every process lifetime x mechanism (complete sweep, single thread) and under seeded thread schedules / histories / environment flips (sampling); each analysis must equal the S-qualified rendering analysed with no default in a clean process. The input dimension (programs) is deliberately not searched.",
         "note": "Fixed committed templates (sim/templates_c14.py); qualifier-fallback site excluded (invalid SQL); environment flips only while analyses run under scoped overrides; trusted: sim/props/c14.py, sim/canon.py.",
     },
+    "C17": {
+        "design_ref": "DESIGN.md 4.7",
+        "technique": "deterministic simulation with I/O fault injection: the WSGI app driven in-process over a scratch directory tree with unique content/name markers; seeded request histories with root moves, chdir, tree mutations, DIRECTORY flips between requests, OSError at the n-th open/exists/is_dir/iterdir, and (threaded class) two clients + a root-move actor under the baton scheduler with line-level pre-emption in drawing.py; one-directional disclosure oracle",
+        "text": "Seeded sampling of request histories x path spellings x administrative operations x I/O faults (x schedules in the threaded class); no response may contain a marker living outside the root in force and a lexically outside path never gets 200. Not the exhaustive enumeration of <=5-segment spellings the quantifier describes (that would be bounded model checking); coverage is reported as distinct histories and (route, class, status) tuples reached.",
+        "note": "Lexical model (symlinks out of scope, as stated); chdir / tree mutations only between requests; wsgiref socket layer not exercised; an escaping exception counts as refusal; trusted: the marker oracle and path model in sim/props/c17.py.",
+    },
 }
 
 PLANNED = {
-    "C17": "claimed in DESIGN.md 4.7; check not built yet in this commit (in progress)",
 }
 
 NA = {
